@@ -21,6 +21,10 @@ CASES = [
      'class K { public constructor() -> K = default; public function bump(int n) -> int { n = n + 1; return n; } }\nfunction main() -> void { K k = new K(); int n = 10; int r = k.bump(1); echo(n); echo(r); }', '10\n2', "a method parameter must not alias the caller's local of the same name"),
     ('frame_setup.runConstructorChain.caller_scopes_untouched',
      'class K { public int v; public constructor(int n) -> K { n = n + 1; this.v = n; return this; } }\nfunction main() -> void { int n = 10; K k = new K(1); echo(n); echo(k.v); }', '10\n2', "a constructor parameter must not alias the caller's local of the same name"),
+    ('assign.int_stored_in_a_long_variable_is_widened',
+     'function main() -> void { long y = 5L; y = 2147483647; y = y + 1L; echo(y); int i = 7; long z = 1L; z = i; z = z * 1000000 * 1000000; echo(z); }', '2147483648\n7000000000000', 'an int assigned to a long variable, then long arithmetic'),
+    ('assign.int_stored_in_a_long_variable_is_widened',
+     'function main() -> void { long y = 5L; y = 2147483647; y = y + 1; echo(y); }', '2147483648', 'an int assigned to a long variable: the next `y + 1` must be 64-bit arithmetic'),
 ]
 def run(bloch, src):
     d = tempfile.mkdtemp(prefix='scope_'); p = os.path.join(d, 'p.bloch'); open(p, 'w').write(src)
